@@ -3,7 +3,8 @@
 Proof: FP/Props/C20.lean about FP/Model/Parser.lean (token-level model of `read_graph` / `read_graphs`).
 Tie (K1): `flowpaths.utils.graphutils.read_graphs(path)` on real temporary files against the Lean driver op
 `parse` on the classified lines of the same file (classification = the str primitives the code itself uses;
-`int()` / `float()` tabulated for the strings of the file): graphs (node order, networkx edge order, exact
+`int()` / `float()` tabulated for the strings of the file; acceptance and the int value are compared with the
+Lean literal model `FP/Model/Literals.lean` by suite K1.literals): graphs (node order, networkx edge order, exact
 weights, id, constraints, n, m, presence of w) or the exception class and the statement that raised.
 Oracles (independent of the model, written against the property text):
  * well-formed files: the parsed result is compared with the generating description; the stored width is compared
@@ -35,6 +36,12 @@ THEOREMS = [
     "FP.Props.C20.classify_edge_line",
     "FP.Props.C20.classify_subpath_line",
     "FP.Props.C20.classify_blank_iff",
+    "FP.Props.C20.pyIntLit_render_nat",
+    "FP.Props.C20.pyIntLit_ascii_digits",
+    "FP.Props.C20.pyIntLit_rejects_nondigit",
+    "FP.Props.C20.pyIntLit_rejects_nondigit_tail",
+    "FP.Props.C20.pyFloatAccepts_int",
+    "FP.Props.C20.pyFloatAccepts_rejects_empty",
 ]
 IMPORTS = ["FP.Props.C20"]
 RULE = ("file descriptions generated directly: 1-4 blocks; per block 1-3 header lines ('#', '##', indentation, empty "
@@ -55,9 +62,21 @@ MODEL_SCOPE = ("modelled: read_graph (header scan, '#S' duplicate filter, id, bl
                "source/sink ValueError of stDiGraph) and read_graphs (block splitting); the str primitives through which "
                "the code looks at characters (str.strip/lstrip/split/startswith('#')/startswith('#S')/[2:]/lstrip('#'), "
                "whitespace = the 29 code points of str.isspace()) are modelled in FP/Model/Lexer.lean (`classify`) and "
-               "tied by suite K1.lexer. Not modelled (oracle parameters): int()/float() literal recognition, the value "
-               "of get_width() (checked by the width oracle instead); file I/O and newline translation.")
-TRUSTED = ["int()/float() tables are produced by the running CPython (oracle parameters of the model, with the width)",
+               "tied by suite K1.lexer; which tokens int() (base 10) and float() accept on a str, and the value of int() "
+               "(Nd digits of every script, underscores only between digits, one sign, the whitespace CPython strips "
+               "there = str.isspace() minus U+001C..U+001F, the 4300-digit limit of int(), inf/infinity/nan, "
+               "mantissa/exponent grammar), are modelled in FP/Model/Literals.lean (`pyIntLit`, `pyFloatAccepts`) and "
+               "tied by suite K1.literals (driver op lit.check against the real int()/float() on every count-line / "
+               "token of every generated, corrupted and corpus file and on a dedicated literal stream). Not modelled "
+               "(oracle parameters): the numeric VALUE of float() (decimal -> binary64 rounding), the value of "
+               "get_width() (checked by the width oracle instead); file I/O and newline translation.")
+TRUSTED = ["the `parse` requests still carry int()/float() tables produced by the running CPython (oracle parameters of "
+           "FP/Model/Parser.lean, with the width); acceptance by int()/float() and the value of int() are compared "
+           "with FP/Model/Literals.lean for every tabulated string by K1.literals, so only the binary64 VALUE of an "
+           "accepted float literal (and the width) remains a genuine oracle parameter",
+           "the Nd digit table of FP/Model/Literals.lean is generated by harness/tools/gen_digit_table.py from the "
+           "running CPython (3.12.1, Unicode 15.0.0); K1.literals re-checks every Nd code point and the neighbours "
+           "of every run against the interpreter in use",
            "the K1 `parse` requests still carry lines classified by the python function `classify` (the real str "
            "primitives, as read_graph uses them); K1.lexer compares that function with the Lean `classify` on every "
            "line of every generated file and on a dedicated character stream, and K1.lexer.e2e replays sampled files "
@@ -113,6 +132,7 @@ def py_float(s):
         return None
 
 
+LIT_POOL = set()     # every count-line text / data token that was handed to int() / float() (compared in K1.literals)
 LEX_POOL = set()     # every distinct raw line that went through the python classifier (compared in K1.lexer)
 K1_TEXTS = []        # the file texts of the K1 suites (a sample is replayed in K1.lexer.e2e)
 
@@ -125,6 +145,8 @@ def request(lines, single=False, cl=None):
     for c in cl:
         if c["k"] == "data":
             ints.setdefault(c["text"], py_int(c["text"]))
+            LIT_POOL.add(c["text"])
+            LIT_POOL.update(c["tokens"])
             for t in c["tokens"]:
                 floats.setdefault(t, py_float(t))
     return {"op": "parse", "lines": cl, "ints": [[k, v] for k, v in ints.items()],
@@ -844,6 +866,114 @@ def k1_lexer_e2e(ctx, lines, single=False):
             ctx.disagree("K1.lexer.e2e", finp(text, single_block=single), obs if obs[0] == "exc" else obs[1], model)
 
 
+# ------------------------------------------------------------------------------------------------- K1.literals
+
+LIT_LISTED = ["1_000.5", "1._5", "1e", ".", "+.5", "1.e3", "\u0661\u0662", "1 2", "0x10", "1e+_5", "nan", "-Infinity",
+              "infinit", "1\x002", "1\x00", " 1\x00 ", "\x001", "1_0", "+5", "+ 5", "\u0661_\u0662", "\uff11\uff12",
+              "\xb2", "\u2460", "\u00bd", "1__0", "_1", "1_", "-nan", "+inf", "iNfInItY", "1_e5", "1e5_", "1e_5", "1_.5",
+              "._5", "1.5_", "\uff11.\uff15e\uff11", "-", "+", "", " ", "\u066b5", "1e\u0663", "\xa01\u3000", "\x1c1",
+              "1\x1f", "\x1d", "--1", "+-1", "nan1", "infx", "1.0.0", "1ee5", "e5", ".e5", "1.e", "0_0", "00", "-0",
+              "1\x85", "5.", "-.5e-3", "1E5", "1e+5", "1e-5", "1e5.", "1e5e5", "in_f", "n_an", "inf_", "infinity_",
+              "INFINITY", "NaN", "nan()", "1f", "1d", "1j", "0b1", "0o7", "1,5", "1'0", "1_0_0", "1_0__0", "+_1", "-_1",
+              "1+", "1-", "1e+", "1e-", "+e5", "\u0131nf", "\u0130nf", "\u212a", "\uff45", "1\uff455", "\uff0b1", "\u22121",
+              "\u0661.\u0662", "\u0967\u0968\u0969", "\U0001d7ce\U0001d7d7", "\U0001e950", "\u0661\uff12", "1\u200b",
+              "\ufeff1", "\u20001\u2000", "\t1\n", "\x0b1\x0c", "\r1\r", "1\x7f", "\x7f", "\u06f4.5e\u06f4", "\u3007",
+              "\u4e00", "\u0e51", "٠", "\U0001fbf9", "\U0001fbfa", "\U0001fbef", "0" * 5 + "7", "1.0", "2.50", "1e400",
+              "1e-400", "0.1", "9007199254740993", "-1", "- 1", "1 ", " 1", "1\n", "٣٫٥"]
+LIT_ALPHABET = list("0123456789_+-.eEinfatyx") + list("0123456789") + ["_", ".", "e"]
+
+
+def lit_token(rng, nd_digits):
+    shape = rng.randint(0, 9)
+    def digs(k, pool="0123456789"):
+        return "".join(rng.choice(pool) for _ in range(k))
+    if shape <= 2:
+        body = "".join(rng.choice(LIT_ALPHABET) for _ in range(rng.randint(0, 7)))
+    elif shape == 3:        # structured float literal with optional defects
+        body = rng.choice(["", "+", "-", "+-"]) + digs(rng.randint(0, 3)) + rng.choice(["", ".", "..", "_"]) + \
+            digs(rng.randint(0, 3)) + rng.choice(["", "", "e", "E", "e+", "e-", "e_", "_e"]) + digs(rng.randint(0, 2))
+    elif shape == 4:        # digits with underscores
+        body = rng.choice(["", "+", "-"]) + "".join(rng.choice(["_", "__", "", "", ""]) + digs(1)
+                                                     for _ in range(rng.randint(1, 6))) + rng.choice(["", "", "_"])
+    elif shape == 5:        # inf / nan variants
+        w = rng.choice(["inf", "infinity", "nan", "infinit", "infi", "in", "na", "nann", "infinityy", "inity"])
+        body = rng.choice(["", "+", "-", "--"]) + "".join(ch.upper() if rng.random() < 0.4 else ch for ch in w)
+    elif shape == 6:        # non-ASCII decimal digits, mixed scripts, inside int / float shapes
+        pool = [chr(rng.choice(nd_digits)) for _ in range(4)] + list("0123456789")
+        body = rng.choice(["", "+", "-"]) + digs(rng.randint(1, 4), pool) + rng.choice(["", "", ".", "_", "e", "."]) + \
+            digs(rng.randint(0, 3), pool)
+    elif shape == 7:        # digit-like characters that are not decimal digits, other junk
+        body = digs(rng.randint(0, 2)) + rng.choice(["\xb2", "\xb3", "\xb9", "\u2070", "\u2074", "\u2460", "\u2160",
+                                                     "\u00bd", "\u3007", "\u4e09", "\u0bf0", "\u1369", "\U00010107",
+                                                     "\x00", "\u200b", "\uff0e", "\uff0b", "\uff3f", "\U0001f600"]) + \
+            digs(rng.randint(0, 2))
+    elif shape == 8:        # whitespace inside
+        body = digs(rng.randint(1, 2)) + rng.choice(PY_SPACES) + digs(rng.randint(0, 2))
+    else:
+        body = digs(rng.randint(1, 12))
+    pad = lambda: "".join(rng.choice(PY_SPACES) for _ in range(rng.randint(0, 2))) if rng.random() < 0.5 else ""
+    return pad() + body + pad()
+
+
+def lean_lit_check(ctx, toks):
+    out = []
+    for i in range(0, len(toks), 200):
+        chunk = toks[i:i + 200]
+        out.extend(ctx.driver.call({"op": "lit.check", "cps": [[ord(c) for c in t] for t in chunk]}))
+    return out
+
+
+def k1_literals(ctx, toks, origin):
+    toks = [t for t in toks if not any(0xd800 <= ord(c) <= 0xdfff for c in t)]
+    for t, m in zip(toks, lean_lit_check(ctx, toks)):
+        iv = py_int(t)
+        try:
+            float(t); fok = True
+        except ValueError:
+            fok = False
+        impl = {"int": None if iv is None else str(iv), "float_ok": fok}
+        hist = [origin, "int " + ("accepted" if iv is not None else "rejected"),
+                "float " + ("accepted" if fok else "rejected")]
+        if any(ord(c) > 0x7f for c in t):
+            hist.append("non-ASCII")
+        if "_" in t:
+            hist.append("underscore")
+        if t != t.strip():
+            hist.append("whitespace padding")
+        if len(t) > 4000:
+            hist.append("around the 4300-digit limit")
+        ctx.rep.count("K1.literals", t, nontrivial=t.strip() != "", hist=hist)
+        ctx.rep.cov["traces_validated_against_impl"] += 1
+        if impl != {"int": m["int"], "float_ok": m["float_ok"]}:
+            ctx.disagree("K1.literals", {"token": t if len(t) < 200 else t[:60] + "...", "cps": [ord(c) for c in t]},
+                         impl, m)
+
+
+def run_literals(ctx):
+    import unicodedata
+    rng = ctx.rng
+    nd = [i for i in range(0x110000) if chr(i).isdecimal()]
+    k1_literals(ctx, sorted(LIT_POOL), "token / count line of a generated, corrupted or corpus file")
+    k1_literals(ctx, LIT_LISTED, "listed")
+    # every decimal digit of every script (alone, as int and inside a float), and their neighbours
+    k1_literals(ctx, [chr(i) for i in nd], "every Nd code point")
+    k1_literals(ctx, ["1" + chr(i) + ".5e" + chr(i) for i in nd[::7]], "every Nd code point")
+    k1_literals(ctx, [chr(i) for s in nd[::10] for i in (s - 1, s + 10) if i not in nd and not 0xd800 <= i <= 0xdfff],
+                "neighbours of the Nd runs")
+    k1_literals(ctx, [chr(i) for i in range(0x3000) if chr(i).isdigit() and not chr(i).isdecimal()],
+                "isdigit but not isdecimal")
+    k1_literals(ctx, [a + "1" + b for a in PY_SPACES + NON_SPACES[:12] for b in ["", " "]] +
+                [a + "1" for a in PY_SPACES] + ["1" + a + "\u0661" for a in PY_SPACES], "every whitespace character")
+    # the limit on the number of digits of int()
+    for n in (639, 640, 641, 4299, 4300, 4301):
+        d = "".join(rng.choice("0123456789") for _ in range(n - 1))
+        k1_literals(ctx, [rng.choice("123456789") + d, "-" + "9" + d, "0" * (n - 1) + "1", "0" * n, " +1" + d + "\n",
+                          "_".join("7" + d), "\u0661" + d, "1" + d + ".0", "1" + d + "e1", "1" + d + "x"],
+                    "long digit strings")
+    k1_literals(ctx, [lit_token(rng, nd) for _ in range(ctx.n(6000, 80000))], "random literal stream")
+    ctx.rep.cov["literal_tokens_from_files"] = len(LIT_POOL)
+
+
 def run(ctx):
     rng = ctx.rng
     from fpv import common
@@ -902,6 +1032,7 @@ def run(ctx):
     texts = sorted(set(K1_TEXTS))
     for text in rng.sample(texts, min(len(texts), ctx.n(200, 3000))):
         k1_lexer_e2e(ctx, file_lines(text))
+    run_literals(ctx)
     set_logging(ctx.fp, True)
 
 
@@ -931,6 +1062,10 @@ def search(ctx):
 
 def replay(ctx, payload):
     inp = payload.get("input") or (payload.get("disagreements") or [{}])[0].get("input")
+    if inp and "cps" in inp and "line" not in inp:
+        t = "".join(map(chr, inp["cps"]))
+        k1_literals(ctx, [t], "replay")
+        print("impl:", py_int(t), py_float(t)); return
     if inp and "line" in inp:
         k1_lexer(ctx, [inp["line"]], "replay")
         print("impl:", lex_norm_py(inp["line"])); return
